@@ -1,4 +1,5 @@
 import Operon.Lemmas.C10
+import Operon.Lemmas.C10Conc
 import Operon.Gen.GatesConsts
 import Operon.Gen.GatesTranslated
 /-!
@@ -303,6 +304,69 @@ theorem c10_membrane_active_signatures (env : Env) (m : Membrane) :
     simp only [Membrane.forget, dictPop, List.mem_filter, decide_eq_true_eq] at hx
     exact hx.2
 
+/-! ## Floods: several threads inside `_check_rate_limit` at once
+
+`Operon/Model/RateConc.lean` executes the statements of `_check_rate_limit` (the instruction list `rateProg`, which
+`c10_translation_agrees_rate_program` below ties to the current source, lock region included) for any number of
+threads under ANY schedule: a schedule is an arbitrary list of "thread i executes its next statement" / "the clock
+advances by d" events; a thread waiting for the lock or already returned does nothing when scheduled. -/
+
+/-- the state a schedule `evs` leads to when every thread starts a call on a membrane whose `_request_times` is
+    `ts0`, at clock value `clock`, with rate limit `r` and window `W` -/
+def floodOf (W r : Nat) (ts0 : List Nat) (clock : Nat) (evs : List CEv) : CSt :=
+  crun rateProg (CSt.start ts0 clock (some r) W) evs
+
+/-- **The rate check is a critical section, and every interleaving is a sequential history.**  For every number of
+    threads, every schedule and every starting `_request_times`:
+    (1) mutual exclusion — a thread between `acquire` and its return holds the lock, so no two threads are ever
+        inside together;
+    (2) linearizability — the log of returned calls, read in the order of their returns, is exactly a SEQUENTIAL
+        history of rate checks: call after call returned what the sequential `_check_rate_limit` (`rateCheckL`, which
+        is the membrane model's `rateCheck`) returns at the time that call read, and whenever no thread is inside,
+        `_request_times` is what that sequential history leaves;
+    (3) the times read by successive calls never decrease.
+    This is why a `par` line of the protocol is replayed by the model as the threads' calls one after the other in
+    the order in which they passed through the critical section. -/
+theorem c10_rate_check_linearizable (W r : Nat) (ts0 : List Nat) (clock : Nat) (evs : List CEv) :
+    (∀ j, 2 ≤ ((floodOf W r ts0 clock evs).thr j).pc → ((floodOf W r ts0 clock evs).thr j).pc ≤ 6 →
+      (floodOf W r ts0 clock evs).sh.lock = some j) ∧
+    (∀ j k, 2 ≤ ((floodOf W r ts0 clock evs).thr j).pc → ((floodOf W r ts0 clock evs).thr j).pc ≤ 6 →
+      2 ≤ ((floodOf W r ts0 clock evs).thr k).pc → ((floodOf W r ts0 clock evs).thr k).pc ≤ 6 → j = k) ∧
+    (∃ b, seqReplay W r ts0 (floodOf W r ts0 clock evs).sh.log = some b ∧
+      ((floodOf W r ts0 clock evs).sh.lock = none → (floodOf W r ts0 clock evs).sh.reqTimes = b)) ∧
+    List.Pairwise (· ≤ ·) ((floodOf W r ts0 clock evs).sh.log.map (·.t)) ∧
+    (∀ (m : Membrane) (now : Nat), m.rateLimit = some r →
+      rateCheck m now = rateCheckL m.window r m.reqTimes now) := by
+  obtain ⟨b, h⟩ := concInv_run W r ts0 clock evs _ _ (concInv_start W r ts0 clock)
+  refine ⟨fun j h2 h6 => h.excl j ⟨h2, h6⟩, ?_, ⟨b, h.replay, h.free⟩, h.sorted, ?_⟩
+  · intro j k hj2 hj6 hk2 hk6
+    have h1 := h.excl j ⟨hj2, hj6⟩
+    have h2 := h.excl k ⟨hk2, hk6⟩
+    unfold floodOf at h1 h2
+    rw [h1] at h2; cases h2; rfl
+  · intro m now hm
+    simp [rateCheck, rateCheckL, hm]
+
+/-- **Rate window under floods.**  Take any sequential history on a fresh membrane with rate limit `r` (no
+    re-assignment of the limit), then let any number of threads call `filter` concurrently — their
+    `_check_rate_limit` executions interleaved statement by statement in any way, the clock advancing at any point.
+    For every instant `T`, the calls admitted by the rate check at a time in `(T - window, T]` — those of the
+    sequential history and those of the flood together — number at most `r`. -/
+theorem c10_membrane_rate_window_concurrent (env : Env) (st : MSt) (r : Nat) (hr : st.m.rateLimit = some r)
+    (hfresh : st.m.reqTimes = []) (ops : List MOp) (hops : ∀ op ∈ ops, op.isSetRate = false)
+    (evs : List CEv) (T : Nat) :
+    ((admissions (mrun env st ops).2 ++
+      admits (floodOf st.m.window r (mrun env st ops).1.m.reqTimes (mrun env st ops).1.now evs).sh.log).filter
+        (inWin st.m.window T)).length ≤ r := by
+  have h0 : RateInv st.m.window r st [] :=
+    ⟨hr, ⟨rfl, by simp, by intro q _; simp [hfresh, prune]⟩, by simp⟩
+  have h1 := rateInv_run env st.m.window r ops hops st [] h0
+  simp only [List.nil_append] at h1
+  obtain ⟨b, h⟩ := concInv_run st.m.window r (mrun env st ops).1.m.reqTimes (mrun env st ops).1.now evs _ _
+    (concInv_start st.m.window r _ _)
+  exact seqReplay_bound st.m.window r _ _ _ (mrun env st ops).1.now b h.replay h.sorted h.lo1
+    h1.syn.sync h1.syn.past h1.bound T
+
 /-! ## Innate immunity -/
 
 /-- **No input makes the innate check raise**, given only that `json.loads` fails with one of the exception
@@ -545,6 +609,14 @@ theorem c10_translation_agrees_check_rate_limit (m : Membrane) (now : Nat) (hw :
   | none => rfl
   | some r => simp only [hw, decide_eq_true_eq]
 
+/-- `_check_rate_limit` of the current source, read as a program over the shared window — which statements read or
+    write `_request_times`, in which order, and which of them sit inside `with self._rate_lock:` (helpers inlined,
+    local computations and logging skipped) — is the instruction list `rateProg` that the concurrent model executes
+    and `c10_rate_check_linearizable` / `c10_membrane_rate_window_concurrent` are about.  A snapshot of the window
+    taken before the lock, an access after it, or a second lock leave the subset (`none`). -/
+theorem c10_translation_agrees_rate_program : Tr.rateProgram = some rateProg := by
+  decide
+
 /-- `Membrane.filter`, translated as a whole with every helper it calls inlined through the call graph — counter,
     rate check on the live limit, the two refusals without scan, the scan over innate + custom + learned signatures
     with its running maximum, the threshold comparison, and the bookkeeping of the decision in source order (audit
@@ -680,6 +752,30 @@ example : depth (.node [.node [], .scalar]) = 2 ∧
     (Validator.json 1 100).rejects ⟨lowerStd, fun _ _ => false, fun _ => true, fun _ => .parsed (.node [.node [], .scalar])⟩ [91] = true ∧
     (Validator.json 2 100).rejects ⟨lowerStd, fun _ _ => false, fun _ => true, fun _ => .parsed (.node [.node [], .scalar])⟩ [91] = false := by
   decide
+
+/-- `c10_rate_check_linearizable`, `c10_membrane_rate_window_concurrent`: limit 1, window 60, two threads.  Thread 0
+    enters the critical section; thread 1 is scheduled three times while 0 holds the lock (it passes the `None`
+    guard, then waits); 0 finishes and is admitted; the clock advances by 5; thread 1 gets the lock, reads time 5
+    and is refused.  The log replays sequentially and leaves `_request_times = [0]`. -/
+private def sched0 : List CEv :=
+  [.run 0, .run 0, .run 1, .run 1, .run 1, .run 0, .run 0, .run 0, .run 0, .run 0, .tick 5,
+   .run 1, .run 1, .run 1, .run 1]
+example : (floodOf 60 1 [] 0 sched0).sh.log = [⟨0, 0, false⟩, ⟨1, 5, true⟩] ∧
+    (floodOf 60 1 [] 0 sched0).sh.lock = none ∧ (floodOf 60 1 [] 0 sched0).sh.reqTimes = [0] ∧
+    seqReplay 60 1 [] (floodOf 60 1 [] 0 sched0).sh.log = some [0] := by decide
+/-- … and a state in which a thread is inside the critical section (thread 0 at `pruneShared`, thread 1 waiting) -/
+example : ((floodOf 60 1 [] 0 [.run 0, .run 0, .run 1, .run 1, .run 0]).thr 0).pc = 3 ∧
+    ((floodOf 60 1 [] 0 [.run 0, .run 0, .run 1, .run 1, .run 0]).thr 1).pc = 1 ∧
+    (floodOf 60 1 [] 0 [.run 0, .run 0, .run 1, .run 1, .run 0]).sh.lock = some 0 := by decide
+
+/-- The lock is what the theorem rests on: the same statements WITHOUT `acquire` (every access to
+    `_request_times` outside a critical section — which is also what reading the window before taking the lock
+    amounts to) admit two calls under limit 1 when thread 1 runs its whole check between thread 0's test and
+    append. -/
+example : (admits (crun [.guardNone, .readClock, .pruneShared, .testShared, .appendShared, .retFalse]
+      (CSt.start [] 0 (some 1) 60)
+      [.run 0, .run 0, .run 0, .run 0, .run 1, .run 1, .run 1, .run 1, .run 1, .run 1, .run 0, .run 0]).sh.log)
+    = [0, 0] := by decide
 
 private def im0 : Innate :=
   Innate.new [⟨[106, 97, 105, 108], 5, false⟩, sSeven] (some [.json 2 100, .charset false false]) [] 3 60
